@@ -46,10 +46,11 @@ def plan(tier):
             fn = "c21_array_elems_k%d_count%d" % (k, count)
             gen.append("vk_proof! {\n" + ATTR % (4 * k + 8) + STUBS + "fn %s() { array_elems::<%d>(%d); }\n}\n" % (fn, k, count))
             p.add(MOD, H(fn, {"frame": "array", "declared_count": count, "elements_received": k, "element": "+x CRLF, x symbolic"}, "array_elems"))
-    for d in ((6, 12) if tier == "quick" else (6, 12, 19, 20)):
-        fn = "c21_array_count_%ddigits" % d
-        gen.append("vk_proof! {\n" + ATTR % (d + 5) + STUBS + "fn %s() { array_huge_count::<%d>(); }\n}\n" % (fn, d))
-        p.add(MOD, H(fn, {"frame": "array header only", "count_digits": d}, "array_count"))
+    for d in ((6, 20) if tier == "quick" else (6, 12, 19, 20, 21)):
+        for kind, call in (("array", "array_huge_count"), ("bulk", "bulk_huge_count")):
+            fn = "c21_%s_count_%ddigits" % (kind, d)
+            gen.append("vk_proof! {\n" + ATTR % (d + 5) + STUBS + "fn %s() { %s::<%d>(); }\n}\n" % (fn, call, d))
+            p.add(MOD, H(fn, {"frame": "%s header only" % kind, "count": "%d symbolic decimal digits (first may be a sign)" % d}, "huge_count"))
     gen.append("vk_proof! {\n" + ATTR % 8 + "fn c21_nesting_limit() { nesting_limit(); }\n}\n")
     p.add(MOD, H("c21_nesting_limit", {"nesting": "at the declared limit, one below it, and propagation to an inner array"}, "nesting"))
     p.gen["c21_gen.rs"] = "".join(gen)
@@ -69,9 +70,9 @@ def plan(tier):
     ]
     p.bound = ("read_line: every buffer of <= %d bytes; one-line frames (+ - : _ inline): <= 2 symbolic content bytes, 0|1 trailing "
                "byte, with and without CRLF; bulk: <= 2 header bytes (any bytes: signs, digits, garbage) + <= %d arbitrary bytes "
-               "after the header; arrays: <= 2 header bytes x <= %d element slots of symbolic type; array headers of 6..%d "
-               "decimal digits with nothing after them; nesting limit + 1" % (maxn, 4 if tier == "quick" else 5,
-                                                                              2 if tier == "quick" else 3, 12 if tier == "quick" else 20))
+               "after the header; arrays: <= 2 header bytes x <= %d element slots of symbolic type; array and bulk headers of 6..%d "
+               "decimal digits (optionally signed) with nothing after them; nesting limit + 1" % (maxn, 4 if tier == "quick" else 5,
+                                                                              2 if tier == "quick" else 3, 20 if tier == "quick" else 21))
     p.not_covered = ("longer frames; inline commands (quick tier: the tokenizer over symbolic characters does not finish in the budget); "
                      "arrays whose elements are not simple strings, nested arrays with symbolic content; real stack exhaustion")
     p.per_harness_timeout = 400 if tier == "quick" else 1500
